@@ -173,14 +173,19 @@ Definition regions_keyed {E} (shards : list (sshard E)) (dboxes : list box) : li
 Definition regions_for (key : list Z) (rs : list (list Z * (Z * region))) : list (Z * region) :=
   map snd (filter (fun kr => key_eqb (fst kr) key) rs).
 
-(* read_reqs: for shard in entry.shards: if key not in dict: continue; ReadReq(consumer(dict[key], shard.tensor)) *)
-Definition read_reqs {E} (shards : list (sshard E)) (dboxes : list box) : list (Z * list (Z * region)) :=
+(* read_reqs: for shard in entry.shards: if key not in dict: continue; ReadReq(consumer(dict[key], shard.tensor)).
+   A request = (index of the saved shard in the entry, the saved shard its consumer deserialises, its regions) *)
+Definition read_reqs_full {E} (shards : list (sshard E)) (dboxes : list box)
+  : list (Z * sshard E * list (Z * region)) :=
   let rs := regions_keyed shards dboxes in
   flat_map (fun js =>
     match regions_for (s_key (snd js)) rs with
     | [] => []
-    | l => [(fst js, l)]
+    | l => [(fst js, snd js, l)]
     end) (indexed shards).
+
+Definition read_reqs {E} (shards : list (sshard E)) (dboxes : list box) : list (Z * list (Z * region)) :=
+  map (fun q => (fst (fst q), snd q)) (read_reqs_full shards dboxes).
 
 (* indices (in entry order) of the saved shards that are read *)
 Definition read_plan {E} (shards : list (sshard E)) (dboxes : list box) : list Z :=
@@ -203,11 +208,9 @@ Fixpoint upd_nth {A} (l : list A) (k : nat) (f : A -> A) : list A :=
 Definition consume {E} (src : tensor E) (rs : list (Z * region)) (ts : list (tensor E)) : list (tensor E) :=
   fold_left (fun ts ir => upd_nth ts (Z.to_nat (fst ir)) (copy_region (snd ir) src)) rs ts.
 
-Definition load_grouped {E} (shards : list (sshard E)) (dsts : list (dshard E)) (dflt : tensor E)
-  : list (tensor E) :=
-  fold_left (fun ts req =>
-               consume (s_data (nth (Z.to_nat (fst req)) shards (mkS (mkBox [] []) [] dflt))) (snd req) ts)
-            (read_reqs shards (map d_box dsts)) (map d_data dsts).
+Definition load_grouped {E} (shards : list (sshard E)) (dsts : list (dshard E)) : list (tensor E) :=
+  fold_left (fun ts q => consume (s_data (snd (fst q))) (snd q) ts)
+            (read_reqs_full shards (map d_box dsts)) (map d_data dsts).
 
 (* ------------------------------------------------------------------ global shape, both implementations *)
 Definition corner (b : box) : list Z := vadd (boff b) (bsz b).
@@ -321,7 +324,7 @@ Definition obs_read (x : list (((list Z * list Z) * list Z) * list Z) * list ((l
   let fin (ts : list (tensor Z)) :=
       VL (map (fun dt => vlistZ (rs_to_list (bsz (d_box (fst dt))) (snd dt))) (combine dsts ts)) in
   VL [obs_reqs (read_reqs shards (map d_box dsts));
-      fin (load_grouped shards dsts (fun _ => -1));
+      fin (load_grouped shards dsts);
       fin (load shards dsts);
       vopt vlistZ (global_shape (map s_box shards));
       vopt vlistZ (tensor_shape (map s_box shards))].
